@@ -243,7 +243,10 @@ def const_check(ctx, name, method, v, ex, calls):
         ctx["stats"]["vegas_constant_worst_rel_dev_1e-12"] = max(ctx["stats"].get("vegas_constant_worst_rel_dev_1e-12", 0), int(rel * 1e12))
     if rel <= tol:
         return []
-    if method == "Vegas" and rel < 1e-6:
+    # the floor TINY = 1e-30 on the variance of an iteration is absolute: for integrals of tiny magnitude (|I| < 1e-8, where
+    # I^2/calls^2 approaches TINY) the same mechanism costs up to ~1e-4 relative (observed 5.8e-5 at I = 2e-10)
+    vegas_bound = 1e-6 if abs(ex) >= 1e-8 else 1e-3
+    if method == "Vegas" and rel < vegas_bound:
         bump(ctx, "vegas_constant_not_to_rounding")
         return [fail("prop", VEGAS_CONST_CLAUSE, "%s: %r vs %r (relative %.3g)" % (name, v, ex, rel))]
     return [fail("prop", name + ": constant integrand not integrated exactly", "%r vs %r" % (v, ex))]
